@@ -1,7 +1,7 @@
 //@@ unit props=C01,C15,C17
 // Unit a1small: the A1 decoder of unit a1, extracted a second time under the hypothesis that the cell name is small
-// (<= 9 digits, <= 6 letters).  Every implicit obligation must be discharged here (no registered findings apply), so the
-// functional clauses of unit a1 do not rest on the overflow findings of the unconditional copy.
+// (<= 9 digits, <= 6 letters).  Every implicit obligation must be discharged here.  (Since the accumulators are checked -- add_digit --
+// unit a1 discharges them unconditionally as well; this copy is kept as the small-input proof that nothing is rejected.)
 #![allow(unused_imports, dead_code, unused_variables, unused_mut, unused_assignments)]
 use vstd::prelude::*;
 
